@@ -14,6 +14,8 @@
 //! enabled features, twice by one feature, overlapping index sets, with lookups that are not idempotent; (iii) "nest": contextual templates x nested
 //! lookups of every type at every sequence index, two-record combinations, nesting depth up to and beyond
 //! the recursion limit; (iv) "variations": FeatureVariations x tuples at and around the range edges;
+//! "reach": contextual rules at / next to the start of the run whose nested ligature consumes glyphs beyond the
+//! matched input, strings over {a,b,m1} up to length 7 (quick) / 8 (thorough);
 //! "misc": modulo-65536 deltas, no GDEF, script selection.
 //! Seams: gsub::apply + Features::Custom on new_layout_cache(LayoutTable<GSUB>) (every encoding with <= 2
 //! non-default choices among Coverage 1/2, ClassDef 1/2, Extension), gsub::apply + Features::Mask, and
@@ -1075,12 +1077,79 @@ fn cat_shared() -> Vec<Prog> {
     v
 }
 
+
+/// "reach": a contextual rule matched at or next to the start of the run whose nested ligature (2-4 components)
+/// consumes 1-3 glyphs beyond the matched input, on strings over {a,b,m1} long enough for the same lookup to
+/// apply again later in the run (the bookkeeping of the end of the match must neither go negative nor skip the rest)
+fn cat_reach() -> Vec<Prog> {
+    let templates: Vec<CtxT> = vec![
+        CtxT { name: "ctx1{a}", n: 1, build: |r, _| vec![Sub::Context1 { cov: vec![A], sets: vec![Some(vec![rule(vec![], r)])] }] },
+        CtxT { name: "ctx1{a b}", n: 2, build: |r, _| vec![Sub::Context1 { cov: vec![A], sets: vec![Some(vec![rule(vec![B], r)])] }] },
+        CtxT {
+            name: "ctx2{class1(a)}",
+            n: 1,
+            build: |r, _| vec![Sub::Context2 { cov: vec![A], classes: vec![(A, 1), (B, 2)], sets: vec![None, Some(vec![rule(vec![], r)]), None] }],
+        },
+        CtxT {
+            name: "ctx2{class1(a) class2(b)}",
+            n: 2,
+            build: |r, _| vec![Sub::Context2 { cov: vec![A], classes: vec![(A, 1), (B, 2)], sets: vec![None, Some(vec![rule(vec![2], r)]), None] }],
+        },
+        CtxT { name: "ctx3{[a]}", n: 1, build: |r, _| vec![Sub::Context3 { covs: vec![vec![A]], records: r.to_vec() }] },
+        CtxT { name: "ctx3{[a][b]}", n: 2, build: |r, _| vec![Sub::Context3 { covs: vec![vec![A], vec![B]], records: r.to_vec() }] },
+        CtxT { name: "chain1{|a|b}", n: 1, build: |r, _| vec![Sub::Chain1 { cov: vec![A], sets: vec![Some(vec![crule(vec![], vec![], vec![B], r)])] }] },
+        CtxT { name: "chain1{b|a|}", n: 1, build: |r, _| vec![Sub::Chain1 { cov: vec![A], sets: vec![Some(vec![crule(vec![B], vec![], vec![], r)])] }] },
+        CtxT {
+            name: "chain2{|class1(a)|class2(b)}",
+            n: 1,
+            build: |r, _| {
+                vec![Sub::Chain2 {
+                    cov: vec![A],
+                    back_classes: vec![(A, 1), (B, 2)],
+                    in_classes: vec![(A, 1), (B, 2)],
+                    ahead_classes: vec![(A, 1), (B, 2)],
+                    sets: vec![None, Some(vec![crule(vec![], vec![], vec![2], r)]), None],
+                }]
+            },
+        },
+        CtxT { name: "chain3{|[a]|[b]}", n: 1, build: |r, _| vec![Sub::Chain3 { back: vec![], input: vec![vec![A]], ahead: vec![vec![B]], records: r.to_vec() }] },
+        CtxT { name: "chain3{[b]|[a]|}", n: 1, build: |r, _| vec![Sub::Chain3 { back: vec![vec![B]], input: vec![vec![A]], ahead: vec![], records: r.to_vec() }] },
+        CtxT {
+            name: "chain3{|[a][b]|[a]}",
+            n: 2,
+            build: |r, _| vec![Sub::Chain3 { back: vec![], input: vec![vec![A], vec![B]], ahead: vec![vec![A]], records: r.to_vec() }],
+        },
+    ];
+    let mut v = Vec::new();
+    for (fname, fl) in [("0", (0u16, 0u16)), ("IgnoreMarks", (IGNORE_MARKS, 0))] {
+        for t in &templates {
+            for k in 0..t.n as u16 {
+                // ligatures that start with the glyph at sequence index k (a at 0, b at 1): 2, 3 and 4 components
+                let comps: Vec<Vec<G>> = if k == 0 { vec![vec![B], vec![B, A], vec![B, A, B]] } else { vec![vec![A], vec![A, B], vec![A, B, A]] };
+                let first = if k == 0 { A } else { B };
+                for rest in comps {
+                    let ligl = lk(fl, vec![lig(vec![first], vec![vec![(L, rest.clone())]])]);
+                    let lname = format!("ligature{{{} {}>L}}@{}", glyph_name(first), rest.iter().map(|g| glyph_name(*g)).collect::<Vec<_>>().join(" "), k);
+                    let b = ctx_bundle(t, fl, fname, &[(k, 2)], &[ligl], &lname);
+                    let mut p = prog_of("reach", &b, (7, 8), SEAM_CUSTOM, 0);
+                    if fl == (0, 0) && k == 0 {
+                        p.seams = SEAM_CUSTOM | SEAM_MASK | SEAM_SHAPE;
+                    }
+                    v.push(p);
+                }
+            }
+        }
+    }
+    v
+}
+
 fn catalogue(thorough: bool) -> Vec<Prog> {
     let mut v = cat_single(thorough);
     v.extend(cat_ctxflags(thorough));
     v.extend(cat_nest(thorough));
     v.extend(cat_pairs(thorough));
     v.extend(cat_shared());
+    v.extend(cat_reach());
     v.extend(cat_variations());
     v.extend(cat_misc());
     v
@@ -1091,12 +1160,19 @@ fn catalogue(thorough: bool) -> Vec<Prog> {
 // ---------------------------------------------------------------------------------------------------
 
 fn strings(maxlen: usize) -> Vec<Vec<G>> {
+    strings_over(&ALPHABET, maxlen)
+}
+
+/// the reduced alphabet of the "reach" class (longer strings)
+const REACH_ALPHABET: [G; 3] = [A, B, M1];
+
+fn strings_over(alphabet: &[G], maxlen: usize) -> Vec<Vec<G>> {
     let mut out: Vec<Vec<G>> = vec![vec![]];
     let mut level: Vec<Vec<G>> = vec![vec![]];
     for _ in 0..maxlen {
         let mut next = Vec::new();
         for s in &level {
-            for g in ALPHABET {
+            for &g in alphabet {
                 let mut t = s.clone();
                 t.push(g);
                 next.push(t);
@@ -1738,7 +1814,8 @@ fn font_bytes(ld: &Loaded) -> Vec<u8> {
     otmodel::tables::minimal_font(8, &CMAP, &extra)
 }
 
-fn run_prog(ctx: &Ctx, p: &Prog, thorough: bool, all_strings: &[Vec<G>]) -> Acc {
+fn run_prog(ctx: &Ctx, p: &Prog, thorough: bool, all_strings: &[Vec<G>], reach_strings: &[Vec<G>]) -> Acc {
+    let all_strings = if p.class == "reach" { reach_strings } else { all_strings };
     let mut acc = Acc { class: p.class, ..Default::default() };
     let maxlen = if thorough { p.maxlen.1 } else { p.maxlen.0 };
     let loaded: Vec<Loaded> = enc_list(p.encodings).into_iter().filter_map(|e| load(p, e, &mut acc)).collect();
@@ -1792,7 +1869,8 @@ pub fn run(ctx: &Ctx) {
         names.dedup();
         assert_eq!(n, names.len(), "machinery: program names are not unique");
     }
-    let accs: Vec<Acc> = progs.par_iter().map(|p| run_prog(ctx, p, thorough, &all_strings)).collect();
+    let reach_strings = strings_over(&REACH_ALPHABET, if thorough { 8 } else { 7 });
+    let accs: Vec<Acc> = progs.par_iter().map(|p| run_prog(ctx, p, thorough, &all_strings, &reach_strings)).collect();
     let mut by_class: BTreeMap<&'static str, u64> = BTreeMap::new();
     for p in &progs {
         *by_class.entry(p.class).or_insert(0) += 1;
@@ -1807,7 +1885,7 @@ pub fn run(ctx: &Ctx) {
             "lookup_flag_settings": flags27().iter().map(|f| f.0.clone()).collect::<Vec<_>>(),
             "max_string_length": {"single": if thorough { 5 } else { 4 }, "ctxflags": if thorough { 5 } else { 4 },
                 "nest (one nested lookup / depth)": if thorough { 5 } else { 4 }, "nest (two records)": if thorough { 4 } else { 3 },
-                "pair": if thorough { 4 } else { 3 }, "shared (one lookup)": if thorough { 5 } else { 4 }, "shared (two / three lookups)": if thorough { 4 } else { 3 }, "variations": if thorough { 3 } else { 2 }, "misc": if thorough { 4 } else { 3 }},
+                "pair": if thorough { 4 } else { 3 }, "reach (alphabet a,b,m1)": if thorough { 8 } else { 7 }, "shared (one lookup)": if thorough { 5 } else { 4 }, "shared (two / three lookups)": if thorough { 4 } else { 3 }, "variations": if thorough { 3 } else { 2 }, "misc": if thorough { 4 } else { 3 }},
             "encodings": if thorough { "single/ctxflags(all indices)/misc(wrap): 7 (<= 2 non-default of Coverage 2, ClassDef 1, Extension); nest(one record)/variations: default + Extension; others: default" } else { "single/ctxflags(all indices) with one of the 8 single flag settings, misc(wrap): 7 (<= 2 non-default of Coverage 2, ClassDef 1, Extension); nest(one record, flag 0)/variations: default + Extension; others: default" },
             "nesting_depth": 5, "pair_bundles": pair_bundles(thorough).len(), "pair_configurations": pair_configs().len(),
             "seams": ["gsub::apply Custom", "gsub::apply Mask", "Font::shape"],
